@@ -1208,7 +1208,7 @@ func (w *_listpairsFieldListAssemblerRepr) AssembleValue() datamodel.NodeAssembl
 		return w.parent.AssembleKey()
 	case 2:
 		asm := w.parent.AssembleValue()
-		return assemblerRepr(asm.(*_assembler))
+		return assemblerRepr(asm)
 	default:
 		return _errorAssembler{fmt.Errorf("bindnode: too many values in listpairs field")}
 	}
